@@ -87,7 +87,8 @@ def make_ds(cfg):
       statistics_compute_steps=cfg["sfreq"], best_effort_shape_interpretation=False,
       graft_type=graft, nesterov=cfg["nesterov"], batch_axis_name=None,
       moving_average_for_momentum=cfg["moving_avg"], relative_matrix_epsilon=cfg["rel_eps"],
-      skip_preconditioning_rank_lt=1, eigh=cfg["eigh"], generate_training_metrics=True)
+      skip_preconditioning_rank_lt=1, eigh=cfg["eigh"], generate_training_metrics=True,
+      inverse_failure_threshold=cfg.get("ift", 0.1))
 
 
 def make_tf(cfg):
